@@ -362,23 +362,17 @@ impl TimeZone {
         // possibleEpochNsAfter is not empty (i.e., isoDateTimeAfter represents the first local time
         // after the transition).
 
-        // Similar to disambiguation, we need to first get the possible epoch for the current start of day +
-        // 3 hours, then get the timestamp for the transition epoch.
-        let after = IsoDateTime::new_unchecked(
-            *iso_date,
-            IsoTime {
-                hour: 3,
-                ..Default::default()
-            },
-        );
-        let Some(after_epoch) = self
-            .get_possible_epoch_ns_for(after, provider)?
-            .into_iter()
-            .next()
-        else {
-            return Err(TemporalError::r#type()
-                .with_message("Could not determine the start of day for the provided date."));
-        };
+        // NOTE: midnight is skipped. Resolving it as `compatible` shifts it forward by the width
+        // of the gap, which lands after the transition whatever that width is (a wall-clock
+        // probe a fixed number of hours later can itself fall into a wide gap); the offset
+        // period containing that instant starts at the transition, i.e. at the first instant
+        // of the day.
+        let after_epoch = self.disambiguate_possible_epoch_nanos(
+            possible_nanos,
+            iso,
+            Disambiguation::Compatible,
+            provider,
+        )?;
 
         let TimeZoneOffset {
             transition_epoch: Some(transition_epoch),
